@@ -23,13 +23,19 @@ SIMPLE_DECODERS = [
     "multidecoder.decoders.base64.find_atob",
     "multidecoder.decoders.base64.find_Base64Decode",
     "multidecoder.decoders.base64.find_base64",
+    "multidecoder.decoders.base64.find_FromBase64String",
+    "multidecoder.decoders.hex.find_FromHexString",
+    "multidecoder.xor_helper.get_xorkey",
+    "multidecoder.keyword.find_keywords",
+    "multidecoder.keyword.find_all",
+    "multidecoder.keyword.is_mixed_case",
 ]
 SHELL_FUNCS = ["multidecoder.decoders.shell.strip_carets", "multidecoder.decoders.shell.deobfuscate_cmd"]
 
 NOT_UNDER_CONTRACT = (
     "decoders not (yet) under a deductive contract and covered only by the run-time DecoderOK stand-in: network.find_domains/find_emails/find_ips/find_urls "
     "(+ parse_url, parse_authority, normalize_*), path.find_windows_path (ntpath), pe_file.find_pe_files (pefile), powershell.find_powershell_bytes (xortool floats), "
-    "shell.find_cmd_strings / find_powershell_strings, base64.find_FromBase64String, hex.find_FromHexString"
+    "shell.find_powershell_strings"
 )
 
 
